@@ -9,7 +9,7 @@
    Outcomes: Ok | Err e | Panic site, Panic exactly where the code has unwrap().
    Definitions only (proofs: Proofs/C17_*.v, Proofs/C16_*.v, Proofs/C20_*.v). *)
 From Coq Require Import String List Bool ZArith QArith.
-From SpdVerif Require Import Base.CfgNumOps Spec.ConfigSpec Gen.ConfigTables Model.ConfigTypes.
+From SpdVerif Require Import Base.CfgNumOps Spec.ConfigSpec Gen.ConfigTables Gen.ConfigSites Model.ConfigTypes.
 Import ListNotations.
 
 Set Implicit Arguments.
@@ -104,7 +104,11 @@ Section Model.
       let z := o_dkz0 K signal pump cs in
       if neqb o z (n0 o) then Ok (inr tt)
       else match o_nm_period K signal pump cs with
-           | None => Panic SiteNelderMeadUnwrap
+           | None =>
+               (* [searches_cannot_fail] (read off the source): a NaN cost is +infinity for the solver and a NaN result fails
+                  the acceptance test, so a search that finds nothing is the error; before that repair argmin failed and the
+                  code unwrapped *)
+               if searches_cannot_fail then Err EImpossiblePeriod else Panic SiteNelderMeadUnwrap
            | Some p => if nltb o (cs_length cs) p || nltb o p min_positive then Err EImpossiblePeriod
                        else Ok (inl (sign_mul (sign_of z) p))
            end.
@@ -156,7 +160,10 @@ Section Model.
     let b := beam_new pol phi (n0 o) (bc_wavelength_nm c *' u_nano o) (bc_waist_um c *' u_micro o) in
     match bc_theta_deg c, bc_theta_ext_deg c with
     | Some t, None => Ok (set_angles b phi (t *' u_deg o))
-    | None, Some e => set_theta_external b (e *' u_deg o) cs
+    | None, Some e =>
+        (* [cfg_checks_external_range] (Gen/ConfigSites.v, read off the source): `if !(theta_e.abs() < 90.) { return Err(..) }` *)
+        if cfg_checks_external_range && negb (nltb o (nabs o e) (nQ o 90)) then Err EExternalRange
+        else set_theta_external b (e *' u_deg o) cs
     | _, _ => Err EThetaSpec
     end.
 
@@ -197,10 +204,15 @@ Section Model.
     beam_of_cfg (signal_polarization (cs_pm (cfg_cs0 c))) (c_signal c) (cfg_cs0 c).
   Definition poling_step (c : spdc_cfg num) (signal : beam num) : outcome (poling num * list nonfinite) :=
     poling_of_cfg (c_pp c) signal (cfg_pump c) (cfg_cs0 c).
+  (* (signal.theta_external(&crystal_setup) / RAD).is_finite() *)
+  Definition ext_defined (signal : beam num) (cs : crystal_setup num) : bool :=
+    match o_snell_ext K signal cs with Some _ => true | None => false end.
   Definition theta_step (c : spdc_cfg num) (signal : beam num) (pp : poling num) : outcome (crystal_setup num) :=
     if is_auto (cc_theta_deg (c_crystal c)) then
       if is_pol_off pp then
-        bind (optimum_theta (cfg_cs0 c) signal (cfg_pump c)) (fun th => Ok (set_crystal_theta (cfg_cs0 c) th))
+        (* [cfg_checks_total_reflection] (read off the source): the external angle the optimum keeps has to exist *)
+        if cfg_checks_total_reflection && negb (ext_defined signal (cfg_cs0 c)) then Err ETotalReflection
+        else bind (optimum_theta (cfg_cs0 c) signal (cfg_pump c)) (fun th => Ok (set_crystal_theta (cfg_cs0 c) th))
       else Err EAutoThetaWithPoling
     else Ok (cfg_cs0 c).
   Definition idler_step (c : spdc_cfg num) (signal : beam num) (cs : crystal_setup num) (pp : poling num)
@@ -294,6 +306,7 @@ Section Model.
     | Err EThetaSpec => "err:theta_spec" | Err EAutoThetaWithPoling => "err:auto_theta_with_poling"
     | Err ESignalLePump => "err:signal_le_pump" | Err EImpossiblePeriod => "err:impossible_period"
     | Err EBadPeriod => "err:bad_period"
+    | Err EExternalRange => "err:external_range" | Err ETotalReflection => "err:total_reflection"
     | Panic SiteOptThetaUnwrap => "panic:optimum_theta" | Panic SiteComputeSignUnwrap => "panic:compute_sign"
     | Panic SiteOptPeriodUnwrap => "panic:optimum_poling_period" | Panic SiteNelderMeadUnwrap => "panic:nelder_mead"
     | Panic SiteOptimumUnwrap => "panic:try_as_optimum_unwrap"
@@ -315,7 +328,10 @@ Section Model.
       match poling_step c signal with
       | Ok (pp, _) =>
         (if is_auto (cc_theta_deg (c_crystal c)) then
-           if is_pol_off pp then [("optimum_theta"%string, cls (optimum_theta (cfg_cs0 c) signal (cfg_pump c)))]
+           if is_pol_off pp then
+             if cfg_checks_total_reflection && negb (ext_defined signal (cfg_cs0 c))
+             then [("external_angle_check"%string, "err:total_reflection"%string)]
+             else [("optimum_theta"%string, cls (optimum_theta (cfg_cs0 c) signal (cfg_pump c)))]
            else [("auto_theta_check"%string, "err:auto_theta_with_poling"%string)]
          else []) ++
         match theta_step c signal pp with
